@@ -13,7 +13,8 @@ Mirrored, with the place in `lang.py`:
 * `visit_sequence` / `visit_choice` / `visit_textx_rule_body`: a sequence or
   choice node per written group (groups of one element are outside the modelled
   syntax and rejected as `unsupported`, the harness never writes them);
-* `visit_repeatable_expr`: `? * +` wrappers, `#` taking the operand's `nodes`,
+* `visit_repeatable_expr`: `? * +` wrappers, `#` taking the `nodes` of a parenthesised sequence / choice
+  and any other operand as its only element (the repaired code),
   separator (`rule_name = "sep"`) and `eolterm` modifiers, the suppression flag;
   modifiers on `?` are a `TextXSyntaxError`;
 * `visit_expression`: `!` / `&` predicates;
@@ -29,9 +30,14 @@ Mirrored, with the place in `lang.py`:
   a reference (alias);
 * `visit_rule_params`: `ws` values containing a backslash are rebuilt from the
   escapes `\n \r \t` and the blank;
-* `_update_attr_multiplicities` (both the pinned walk, in which an ordered
-  choice resets the branch set, and the repaired walk of C02 — `multSensitive`
-  tells whether they differ on this grammar);
+* `_update_attr_multiplicities`: `compile` uses the walk of the code as it is
+  (`walk true`: every alternative of an ordered choice starts from a copy of the
+  incoming branch set and the union flows back); the pinned walk (`walk false`,
+  an ordered choice resets the branch set) is kept for negation witnesses and
+  `multSensitive` reports whether it would differ on this grammar;
+* `visit_assignment`: `?=` together with any other assignment of the attribute is
+  rejected in either order; the attribute name `parent` and rule names starting
+  with `__asgn` are rejected;
 * `_resolve_rule_refs`: aliases are followed, a suppressed reference becomes a
   non-root `Sequence` wrapper with the referenced name, unknown names are a
   `TextXSemanticError`; alias cycles make Python overflow its stack (`recursion`);
@@ -94,7 +100,7 @@ structure Compiled where
   top : Nat                    -- parser.parser_model (`Model := top-rule EOF`)
   comments : Option Nat        -- parser.comments_model
   classes : List Cls           -- user classes in rule order (base types are implicit)
-  multSensitive : Bool         -- pinned and C02-repaired multiplicity walks differ
+  multSensitive : Bool         -- the pinned multiplicity walk would differ from the one of the code (evidence only)
 deriving Repr, Inhabited
 
 /-! ## shape check -/
@@ -108,7 +114,12 @@ def wf : Expr → Bool
   | .str .. | .re .. | .ref .. => true
   | .seq xs _ | .alt xs _ => decide (2 ≤ xs.length) && wfList xs
   | .rep _ x _ _ _ => wf x
-  | .unord xs _ _ _ => decide (2 ≤ xs.length) && wfList xs
+  | .unord xs _ _ _ =>
+      -- `(x y …)#` / `(x | y …)#` unpack the group; any other operand is the only element (`x#`), so a
+      -- one-element group whose element is an unsuppressed sequence / choice cannot be written
+      (match xs with
+       | [] | [.seq _ false] | [.alt _ false] => false
+       | _ => true) && wfList xs
   | .asgn _ _ rhs _ _ _ => simpleOperand rhs
   | .pred _ x _ =>
       match x with
@@ -146,22 +157,31 @@ def setAttr (attrs : List Attr) (a : Attr) : List Attr :=
   if attrs.any (·.name == a.name) then attrs.map (fun b => if b.name == a.name then a else b)
   else attrs ++ [a]
 
+/-- the operator's base multiplicity: `+=` → `1..*`, `*=` → `0..*` unless already `1..*`, `?=` → `0..1` -/
+def opMult (op : AsgOp) (m : Mult) : Mult :=
+  match op with
+  | .plus => .oneOrMore
+  | .star => if m = .oneOrMore then m else .zeroOrMore
+  | .opt => .optional
+  | .plain => m
+
+/-- the attribute record after one more assignment `op` with right-hand-side type `ty`
+(`a.cls = ""`: the record has just been created) -/
+def mkAttr (a : Attr) (op : AsgOp) (ty : String) : Attr :=
+  { a with mult := opMult op a.mult, boolAsg := a.boolAsg || decide (op = .opt),
+           cls := if a.cls == "" then ty else if a.cls != ty then "OBJECT" else a.cls }
+
 def applyEv (attrs : List Attr) : Ev → Except TxErr (List Attr)
   | .optMods => .error (.syntax "Modifiers are not allowed for \"?\" operator")
   | .asg name op ty mods =>
-    match attrs.find? (·.name == name), op with
-    | some _, .opt => .error (.semantic "Cannot use \"?=\" operator on multiple assignments")
-    | old, op =>
-      let a : Attr := old.getD { name := name, cls := "" }
-      let a := match op with
-        | .plus => { a with mult := .oneOrMore }
-        | .star => if a.mult = .oneOrMore then a else { a with mult := .zeroOrMore }
-        | .opt => { a with mult := .optional, boolAsg := true }
-        | .plain => a
+    if name == "parent" then .error (.semantic "\"parent\" is a reserved attribute name") else
+    let old := attrs.find? (·.name == name)
+    -- "whether the bool assignment comes first or later" (the repaired, symmetric test)
+    if old.any (fun o => op = .opt || o.boolAsg) then
+      .error (.semantic "Cannot use \"?=\" operator on multiple assignments")
+    else
       if mods && (op = .opt || op = .plain) then .error (.syntax "Modifiers are not allowed for this operator")
-      else
-        let a := if a.cls == "" then { a with cls := ty } else if a.cls != ty then { a with cls := "OBJECT" } else a
-        .ok (setAttr attrs a)
+      else .ok (setAttr attrs (mkAttr (old.getD { name := name, cls := "" }) op ty))
 
 def applyEvs (attrs : List Attr) : List Ev → Except TxErr (List Attr)
   | [] => .ok attrs
@@ -179,16 +199,27 @@ def setMult (attrs : List Attr) (name : String) (f : Mult → Mult) : List Attr 
 
 def unionStr (a b : List String) : List String := a ++ b.filter (fun x => !a.contains x)
 
+/-- the `mult` an `__asgn_*` node hands on: `+=` is a `OneOrMore`, `*=` a `ZeroOrMore` -/
+def asgMult (op : AsgOp) (mult : Mult) : Mult :=
+  match op with
+  | .plus => Mult.oneOrMore
+  | .star => if mult = Mult.oneOrMore then mult else Mult.zeroOrMore
+  | _ => mult
+
+/-- the `mult` a repetition hands on -/
+def repMult (op : RepOp) (mult : Mult) : Mult :=
+  match op with
+  | .plus => Mult.oneOrMore
+  | .star => if mult = Mult.oneOrMore then mult else Mult.zeroOrMore
+  | .opt => mult
+
 mutual
 /-- `fixed = false`: the pinned code (every alternative starts from an empty set
 and nothing flows back); `fixed = true`: the C02 repair (every alternative starts
 from a copy of the incoming set, the union flows back). -/
 def walk (fixed : Bool) : Expr → Mult → WalkSt → Except TxErr WalkSt
   | .asgn a op _ _ _ _, mult, st =>
-    let mult : Mult := match op with
-      | .plus => Mult.oneOrMore
-      | .star => if mult = Mult.oneOrMore then mult else Mult.zeroOrMore
-      | _ => mult
+    let mult : Mult := asgMult op mult
     if mult.many then
       if op = AsgOp.opt then .error (.semantic "Can't use bool assignment inside repetition")
       else .ok { st with attrs := setMult st.attrs a (fun m => if m.prio < mult.prio then mult else m) }
@@ -196,12 +227,7 @@ def walk (fixed : Bool) : Expr → Mult → WalkSt → Except TxErr WalkSt
     else .ok { st with set := a :: st.set }
   | .alt xs _, mult, st => walkAlts fixed xs mult st.set { st with set := if fixed then st.set else [] }
   | .seq xs _, mult, st | .unord xs _ _ _, mult, st => walkSeq fixed xs mult st
-  | .rep op x _ _ _, mult, st =>
-    let mult : Mult := match op with
-      | .plus => Mult.oneOrMore
-      | .star => if mult = Mult.oneOrMore then mult else Mult.zeroOrMore
-      | .opt => mult
-    walk fixed x mult st
+  | .rep op x _ _ _, mult, st => walk fixed x (repMult op mult) st
   | .pred _ x _, mult, st => walk fixed x mult st
   | _, _, st => .ok st
 def walkSeq (fixed : Bool) : List Expr → Mult → WalkSt → Except TxErr WalkSt
@@ -429,6 +455,8 @@ def checkRefs (g : Gram) (offs : List (String × Nat)) : List String → Except 
 
 /-- first pass over one rule: attributes, then the multiplicity walk -/
 def ruleClass (fixed : Bool) (r : Rule) : Except TxErr Cls := do
+  -- `visit_rule_name`: the prefix of the assignment nodes' rule names is reserved
+  if "__asgn".toList.isPrefixOf r.name.toList then throw (.semantic "reserved rule name")
   let attrs ← applyEvs [] (events r.body)
   let st ← walk fixed r.body .one { attrs := attrs, set := [] }
   .ok { name := r.name, attrs := st.attrs }
@@ -456,8 +484,7 @@ def compile (g : Gram) : Except TxErr Compiled := do
       .error (.unsupported "rule named like a base type") else
     if !(g.rules.map (·.name)).Nodup then .error (.unsupported "duplicate rule") else
     -- first pass (per rule, in order)
-    let classes ← ruleClasses false g.rules
-    let classesFixed ← ruleClasses true g.rules
+    let classes0 ← ruleClasses true g.rules
     -- second pass: rule references
     let offs := offsets g.rules baseNodes.length
     checkRefs g offs ((g.rules.map (·.name)) ++ refsList (g.rules.map (·.body)))
@@ -472,12 +499,14 @@ def compile (g : Gram) : Except TxErr Compiled := do
        { node := { kind := .eof, rule := "EOF" } }]
     let nodes := nodes.toArray
     let roots := g.rules.map (fun r => (r.name, rootOf r.name))
-    let classes := iterate (kindStep nodes roots) (classes.length + 1) classes
+    let classes := iterate (kindStep nodes roots) (classes0.length + 1) classes0
     let classes := classes.map fun c => { c with attrs := c.attrs.map (resolveAttr classes) }
     .ok { nodes := nodes, top := top,
           comments := (g.find? "Comment").map (fun r => rootOf r.name),
           classes := classes,
-          multSensitive := classes.map (fun c => c.attrs.map (·.mult)) != classesFixed.map (fun c => c.attrs.map (·.mult)) }
+          multSensitive := match ruleClasses false g.rules with
+            | .ok pinned => pinned.map (fun c => c.attrs.map (·.mult)) != classes0.map (fun c => c.attrs.map (·.mult))
+            | .error _ => true }
 
 def Compiled.grammar (c : Compiled) (input : Array Char) (toks : Array (Array (Option Nat))) : Peg.Grammar :=
   { nodes := c.nodes.map (·.node), comments := c.comments, memo := false, input := input, toks := toks }
